@@ -1028,14 +1028,6 @@ func (client *client) publishHandler(pub *packets.Publish) *codes.Error {
 		}
 	}
 
-	if pub.Retain {
-		if len(pub.Payload) == 0 {
-			srv.retainedDB.Remove(msg.Topic)
-		} else {
-			srv.retainedDB.AddOrReplace(msg.Copy())
-		}
-	}
-
 	var err error
 	var topicMatched bool
 	if !dup {
@@ -1051,6 +1043,14 @@ func (client *client) publishHandler(pub *packets.Publish) *codes.Error {
 			opts = req.IterationOptions
 		}
 		if msg != nil && err == nil {
+			// update the retained store only with what the OnMsgArrived hook let through
+			if msg.Retained {
+				if len(msg.Payload) == 0 {
+					srv.retainedDB.Remove(msg.Topic)
+				} else {
+					srv.retainedDB.AddOrReplace(msg.Copy())
+				}
+			}
 			topicMatched = client.deliverMessage(client.opts.ClientID, msg, opts)
 		}
 	}
